@@ -7,7 +7,7 @@ hint = sys.argv[4] if len(sys.argv) > 4 else ''
 props = {json.loads(l)['id']: json.loads(l) for l in open('/verif/properties.jsonl')}
 p = props[pid]
 wt = '/tmp/wt/%s%s' % (pid.lower(), tag)
-T = open('/verif/.tasks/mutant_template.md').read()
+T = open('/verif/.tasks/mutant_template.md' if __import__('os').path.exists('/verif/.tasks/mutant_template.md') else '/verif/tools/briefs/mutant_template.md').read()
 files = ', '.join(f for f in p['anchors']['files'] if not f.endswith('.pyx'))
 s = (T.replace('{WT}', wt).replace('{TITLE}', p['title']).replace('{STATEMENT}', p['statement'])
      .replace('{QUANT}', p['quantifier']['text']).replace('{FILES}', files).replace('{N}', n).replace('{ID}', pid))
